@@ -11,8 +11,10 @@ For two texts of the same kind the text is the fixed-length base-58 numeral of `
 base-58 alphabet is ASCII-increasing, so `str` order = numeric order = lexicographic order of `prefix ‖ payload`
 (the 4 checksum bytes are the least significant digits and cannot decide between different payloads); texts of
 different kinds but the same length are decided by their (kind-determined) leading characters.  `textLt` / `textEq`
-below are that statement used as a *modelling step*: it is not proved in Lean here, it is validated by the
-correspondence run on adversarial payloads (first/last byte ±1, 00…/ff… payloads, every kind pair).
+below are that statement used as a *modelling step*; it is PROVED in Proofs/C03Bridge.lean (`Order.b58_text_order`,
+`textLt_is_string_lt`, restated as `C03.text_bridge`) on top of the Base58 model of C09, with "both texts have the same
+number of characters" as a hypothesis (true for every table row: C09), and it is exercised by the correspondence run on
+adversarial payloads (first/last byte ±1, 00…/ff… payloads, every kind pair).
 
 `Impl.*` mirrors the code (shape constants and tables come from `Generated.C03`, i.e. from the source);
 `Spec.cmp` is the structural Tezos order (hand-written from the Michelson reference).
